@@ -5,6 +5,7 @@ CONSTANTS
     MaxDt = 2
     MaxBDt = 1
     LeaveOKStartsDuration = FALSE
+    BatchGaps = {1}
     MaxBatch = 2
 INVARIANTS
     TypeOK
